@@ -95,6 +95,11 @@ theorem exportRows_filterCol {α} (cs : List (List α)) (flt : Option (List Bool
     intro c hc
     simp only [Function.comp, filterCol_getElem?, hlen c hc, List.getElem?_eq_getElem h1, Option.bind_some]
 
+example := exportRows_filterCol [[1, 2, 3], [4, 5, 6]] (some [false, true, true, true]) 3 (by decide) (by decide)
+
+example : exportRows ([[1, 2, 3], [4, 5, 6]].map (fun c => filterCol c (some [false, true, true, true]))) Option.none
+    = [[2, 5], [3, 6]] := by decide
+
 theorem firstOccurrences_nodup {α} [BEq α] [LawfulBEq α] : ∀ (ns acc : List α), ns.Nodup → (∀ n ∈ ns, n ∉ acc) →
     firstOccurrences acc ns = acc ++ ns := by
   intro ns
